@@ -29,6 +29,7 @@ mod oracle_c01;
 mod oracle_c02;
 mod oracle_c05;
 mod oracle_c06;
+mod oracle_c17;
 mod oracle_c07;
 mod oracle_c18;
 mod script_c05;
@@ -1048,6 +1049,8 @@ fn main() {
     let thorough = tier_is_thorough();
     let mut n_sessions: u64 = if thorough { 6000 } else { 400 };
     let mut ops_per: u64 = if thorough { 80 } else { 60 };
+    let mut c17_queries = false;
+    let mut c17_stats = oracle_c17::Stats::new();
     let mut script_name: Option<String> = None;
     // `--profile c07`: selection-heavy histories (small pages, rearward choice, symbol lists, jumps)
     let mut focus = false;
@@ -1066,6 +1069,8 @@ fn main() {
                 ops_per = args[i + 1].parse().unwrap();
                 i += 1;
             }
+            // C17: one `edq` record (all getters, compared with the model) per step
+            "--queries" => c17_queries = true,
             "--script" => {
                 // scripted sessions (c18: exhaustive character sweep, c05: limit overshoots) instead of generated ones
                 script_name = Some(args[i + 1].clone());
@@ -1083,6 +1088,12 @@ fn main() {
     std::panic::set_hook(Box::new(|_| {}));
     let mut out = Out::new();
     let seed = seed_from_env();
+    if args.iter().any(|a| a == "--c17-pairs") {
+        // C17: paired executions only (with/without getters, reset vs fresh, alone vs beside another context)
+        oracle_c17::run_pairs(&mut out, seed, thorough);
+        out.flush();
+        return;
+    }
     let pool = pool(focus);
     out.stat("pool_syllables", pool.len());
     let kb = Qwerty;
@@ -1357,6 +1368,7 @@ fn main() {
                     oracle_c02::check(&mut out, &step);
                     oracle_c05::check(&mut out, &step);
                     oracle_c06::check(&mut out, &step);
+                    oracle_c17::after_step(&mut out, &step, &s, c17_queries, &mut c17_stats);
                     oracle_c07::check(&mut out, &step);
                     oracle_c18::check(&mut out, &step);
                     oracle_c01::check(&mut out, &step);
@@ -1440,6 +1452,7 @@ fn main() {
     out.stat("c01_unlearn_of_buffered_syllable", n_unlearn_hit_buffered);
     out.stat("c01_max_lookups_in_one_operation", max_lookups);
     out.stat("c01_lookup_fuel", LOOKUP_FUEL);
+    c17_stats.print(&mut out);
     out.stat("profile_c07", focus as u8);
     out.stat("down_keys_replaced_by_hang_guard", n_hang_guard);
     oracle_c07::finish(&mut out);
